@@ -641,6 +641,65 @@ def polycycles(rng, quick):
     return out
 
 
+def h_allowed(mol, n):
+    """every implicit-hydrogen count the valence rules allow for atom n in its bond environment (the default AND the
+    alternatives), computed here from `atom.valence_rules` so that the generator does not depend on check_implicit"""
+    from collections import defaultdict
+    atom = mol._atoms[n]
+    if atom.atomic_number == 1:
+        return {0}
+    total, env = 0, defaultdict(int)
+    for k, b in mol._bonds[n].items():
+        if int(b) == 4:
+            return set()
+        if int(b) != 8:
+            total += int(b)
+            env[(int(b), mol._atoms[k].atomic_number)] += 1
+    try:
+        rules = atom.valence_rules(total)
+    except Exception:  # noqa
+        return set()
+    return {h for st, d, h in rules if st.issubset(env) and all(env[k] >= c for k, c in d.items())}
+
+
+GRID_CENTRES = [5, 6, 7, 8, 9, 13, 14, 15, 16, 17, 33, 34, 35, 53, 26, 28]       # B C N O F Al Si P S Cl As Se Br I Fe Ni
+GRID_ENVS = [[], [(1, 6)], [(2, 8)], [(3, 7)], [(1, 6), (1, 6)], [(2, 8), (1, 8)], [(2, 8), (2, 8)], [(1, 6), (1, 6), (1, 6)],
+             [(2, 8), (1, 8), (1, 8)], [(2, 8), (1, 6), (1, 6)], [(1, 9), (1, 9), (1, 9), (1, 9)], [(8, 26)], [(8, 26), (8, 26)],
+             [(1, 6), (8, 26)], [(2, 8), (8, 28)], [(1, 17), (1, 17)]]
+
+
+def atom_grid(rng, quick):
+    """the decision table of `_format_atom` x the hydrogen reconciliation of the reader, systematically: centre element x
+    bond environment (none / single / double / triple / several / only coordination bonds `~` / mixed) x charge x EVERY
+    hydrogen count the valence rules allow (default and alternatives). Built from ints (no SMILES reader involved)."""
+    out = []
+    for z in GRID_CENTRES:
+        for env in GRID_ENVS:
+            for ch in (0, 1, -1):
+                if quick and ch and rng.random() < 0.5:
+                    continue
+                # atom 1 = centre, neighbours 2.. ; H of neighbours computed afterwards
+                xs = [1 + len(env), 1, z, 0, ch, 0, 0, -1, len(env)]
+                for i, (o, _) in enumerate(env):
+                    xs += [2 + i, o, -1]
+                for i, (o, nz) in enumerate(env):
+                    xs += [2 + i, nz, 0, 0, 0, -1, -1, 1, 1, o, -1]
+                try:
+                    m, _ = wire.ints_to_mol(xs, calc=True)
+                    for k in range(2, 2 + len(env)):
+                        m.calc_implicit(k)
+                    hs = h_allowed(m, 1)
+                except Exception:  # noqa
+                    continue
+                for h in sorted(hs):
+                    c = m.copy()
+                    c._atoms[1]._implicit_hydrogens = h
+                    c.flush_cache()
+                    if judgeable(c):
+                        out.append((f'grid:z{z}/{env}/q{ch}/H{h}', c))
+    return out
+
+
 def stereo_extra():
     out = []
     for s in STEREO_EXTRA:
@@ -665,6 +724,7 @@ def molecules(ctx):
     out += wide_numbers()
     out += late_radicals(rng, q)
     out += polycycles(rng, q)
+    out += atom_grid(rng, q)
     out += molgen.corpus(rng, 110 if q else 1200)
     for n in (3, 4, 5) if q else (3, 4, 5, 6):
         graphs = list(molgen.small_graphs(n))
@@ -809,7 +869,10 @@ def correspond(ctx):
                     variants.append((c, f'unlabelled:{x}-{y}'))
         for m, tag in variants:
             st = has_stereo(m)
-            specs = [(sp, None) for sp in dict.fromkeys(['', 'r'] + ctx.rng.sample(SPECS[1:], n_specs))]
+            if name.startswith('grid:'):
+                specs = [('', None), ('r', None), (ctx.rng.choice(['A', 'a', 'm', 'h', 'ra']), None)]
+            else:
+                specs = [(sp, None) for sp in dict.fromkeys(['', 'r'] + ctx.rng.sample(SPECS[1:], n_specs))]
             if st:
                 specs += [('a', None)] + [('ra', None)] * 4
                 try:  # recycled closure numbers on labelled ring-fusion centres: needs three rings and many traversal orders
